@@ -59,15 +59,13 @@ func runNodeDown(t *testing.T, c *ndCase, tag string) {
 	defer cl.Close()
 	cl.Wipe()
 	pod := "p" + tag
-	cl.AddPod(pod)
+	addPod(cl, pod)
 	name := func(n string) string { return n + tag }
 	nodes := map[string]*types.Node{}
 	for _, nd := range c.Nodes {
 		o := cl.AddNodeOptions(ckit.NodeSpec{Name: name(nd.Name), Pod: pod, CPU: 8, Memory: 16 << 30})
 		o.Test = nd.Test
-		n, err := cl.C.AddNode(cl.Ctx(), o)
-		fatalIf(t, err, "AddNode")
-		nodes[nd.Name] = n
+		nodes[nd.Name] = addNodeOpts(cl, o)
 	}
 	raw := cl.Store.Store
 	wids := map[int]string{}
